@@ -28,7 +28,9 @@ MODELLED = ("UCSReplication.replicate/on_replicate_request/on_replicate_answer/_
             "replication_neighbors/_add_hosting_path, ReplicationTracker, path_utils (remove_path, "
             "cheapest_path_to, affordable_path_from incl. the mutation-while-iterating skip), the asserts of "
             "UCSReplicateMessage, AgentDef.route/hosting_cost are modelled and compared event by event, state "
-            "by state and token by token. Agent arrival/removal events are not modelled.")
+            "by state and token by token. Agent arrival/removal events are not modelled. Theorems: acceptance "
+            "test / capacity safety / reported placement / token uniqueness and conservation; termination and "
+            "'reported hosts = all holders' rest on the oracle of this run.")
 META = dict(
     level_text=("Proof (Coq), for every well-formed deployment (any number of agents/computations, any costs, "
                 "k >= 1) and EVERY schedule of starts and per-channel-FIFO deliveries of the UCS replication "
@@ -36,9 +38,11 @@ META = dict(
                 "footprint held for them; every acceptance leaves remaining capacity >= new footprint + that worst "
                 "case (hence also for the requested k <= 3), and in every reachable state every agent can activate "
                 "the replicas of any k_target-1 owners; the hosts a replication reports are distinct, at most k, "
-                "never an owner of the computation, and each holds/has registered the replica. NOT proved "
-                "(checked by the independent oracle on every generated run): termination (every agent reports "
-                "done) and that no agent outside the reported set holds a replica (one token per computation). "
+                "never an owner of the computation, and each holds/has registered the replica; at most one "
+                "request/answer token per computation is ever in flight and a handler never silently drops or "
+                "duplicates it. NOT proved (checked by the independent oracle on every generated run): "
+                "termination (no handler raises, finite budget sequence, so every agent reports done) and that "
+                "no agent outside the reported set holds a replica. "
                 "The model is tied to dist_ucs_hostingcosts.py/path_utils.py/agents.py by replaying the same "
                 "schedules on the real ResilientAgent/UCSReplication/Discovery objects and comparing every "
                 "event, final state and in-flight token."),
@@ -200,6 +204,7 @@ def run_impl(c):
             agents[i].add_computation(Hosted(cn(cc), fp, [cn(x) for x in nb]))
 
     log = []
+    rejects = [0]
     comps = {}
     for i, ag in agents.items():
         rc = ag.replication_comp
@@ -220,6 +225,13 @@ def run_impl(c):
             log.append(["done", _i, sorted([int(k[1:]), sorted(int(h[1:]) for h in v)] for k, v in hosts.items())])
             return _o(hosts)
         rc.replication_done = done
+
+        def can_host(agent, computation, footprint, _rc=rc, _o=rc._can_host):
+            r = _o(agent, computation, footprint)
+            if not r and computation not in _rc._hosted_replicas:
+                rejects[0] += 1
+            return r
+        rc._can_host = can_host
         rc._msg_handlers["verif_replicate"] = (lambda s, m, t, _ag=ag: _ag.replicate(m.content))
     comps["orch"] = Orchestrator([rn(i) for i in range(na)], c["k"])
     drv = NetDriver(comps)
@@ -276,7 +288,7 @@ def run_impl(c):
             remaining=rc._remaining_capacity(),
             running=rc.is_running))
     return dict(log=log, sched=[[a[0]] + [_nid(x) for x in a[1:]] for a in drv.schedule], state=st,
-                inflight=inflight, quiescent=quiescent, steps=steps, policy=policy)
+                inflight=inflight, quiescent=quiescent, steps=steps, policy=policy, rejects=rejects[0])
 
 
 def _pid(x):
@@ -449,6 +461,7 @@ def histogram(cases, obs):
         h["k%d" % c["k"]] += 1
         h["max_steps"] = max(h["max_steps"], o["steps"])
         h["deliveries"] += o["steps"]
+        h["rejects_capacity"] += o.get("rejects", 0)
         for e in o["log"]:
             if e[0] == "accept":
                 h["accepts"] += 1
